@@ -243,6 +243,16 @@ def run_loads(col):
                         bad.append(k)
                 return not bad and r.shape == (n, 1), "mechanics/_pointload.py PointLoad._vector: rows %s" % bad
             col.check("C14.O4", "PointLoad %s (%d extra fields)" % (what, mixed), "the given values land in the rows of the addressed points (ids from the end, scalars and single rows broadcast, None is a zero load)", chk_alt)
+        if not mixed:
+            def chk_dup():
+                # a point id listed twice: "a point load [assembles] to exactly its values" -- the nodal vector carries every given row
+                vd = symarray("pd", (3, d))
+                item = it.call(cls, [fc, [0, 0, 1]], dict(values=vd))
+                r = micro.dense(it.call(it.getattr(it.getattr(item, "assemble"), "vector"), [fc], {}))
+                tot = [sum((P(r[d * p_ + i, 0]) for p_ in range(ra.mesh.npoints)), ZERO) for i in range(d)]
+                want = [vd[0, i] + vd[1, i] + vd[2, i] for i in range(d)]
+                return all(is_zero(tot[i] - want[i]) for i in range(d)), "mechanics/_pointload.py PointLoad._vector: `force[points] += values` with a repeated index adds one of the rows only: resultant %s for rows summing to %s" % ([str(t) for t in tot], [str(w_) for w_ in want])
+            col.check("C14.O4", "PointLoad:point-id-listed-twice", "the nodal forces of a point load sum to the sum of its given rows, also when a point is listed more than once", chk_dup)
         if mixed:
             item = it.call(cls, [fc, [1]], dict(values=[[sym("q")]], apply_on=1))
             r = micro.dense(it.call(it.getattr(it.getattr(item, "assemble"), "vector"), [fc], {}))
